@@ -12,7 +12,8 @@ from ..harness import Sub, Violation, run_world
 from ..oracles import globalarr as ga
 
 PROPERTY = "C04"
-HANG_SECONDS = 40.0
+HANG_SECONDS = 60.0
+LINE_BUDGET = 1000000000
 RULE = ("Histories over {setLayout(L) for every layout, write(k) (overwrite with the k-th injective pattern), "
         "save, restore, free} incl. the illegal calls, executed on a real Grid on every rank of a simulated "
         "world and on a numpy model (global array, current layout, saved (array, layout) or none); after "
